@@ -49,7 +49,8 @@ ALL_KEEPS = '{"TT", "FF", "TF", "FT"}'
 FWD_DEFAULT = dict(MaxW=2, Keeps='{"TT"}', AllowFail='TRUE',
                    AllowReset='TRUE', AllowCut='TRUE', AllowLsn='TRUE',
                    FixLost='FALSE', FixCross='FALSE', Win=0,
-                   AdjustOnlyOpen='FALSE', FlowBias='FALSE', EarlyBias='FALSE',
+                   AdjustOnlyOpen='FALSE', CreditDropped='FALSE',
+                   FlowBias='FALSE', EarlyBias='FALSE',
                    DropEarly='FALSE',
                    NoEofRelay='FALSE')
 SOCKS_DEFAULT = dict(MaxIn=30, MaxName=255, Runs='{254, 255, 256, 300}',
@@ -354,8 +355,14 @@ def main(ctx):
                        ('DOA', True), ('DAO',), ('C', 'L'), ('C', 'R')],
                       'local')
     fix_cross = pr.get('relayed_after_drain', 0) == 0
+    Wl = lambda e, d: ('W', e, d)
+    pr = F.run_labels([Wl('L', 1), Wl('L', 2), Wl('L', 3), ('DOA', True),
+                       Wl('R', 1), Wl('R', 2), Wl('R', 3), ('X', 'R'),
+                       ('DAO',), ('X', 'L')], 'local', window=2)
+    credit = pr.get('chan_after_drain') == {'O': 0, 'A': 0}
     asis = dict(FixLost='TRUE' if fix_lost else 'FALSE',
-                FixCross='TRUE' if fix_cross else 'FALSE')
+                FixCross='TRUE' if fix_cross else 'FALSE',
+                CreditDropped='TRUE' if credit else 'FALSE')
     ctx.notes.append(f'code variant detected: {asis}')
     T = lambda b: 'TRUE' if b else 'FALSE'
 
@@ -374,10 +381,12 @@ def main(ctx):
                         workers=4))
     # flow control in play: a channel window of Win data units (one unit = one
     # maximum packet), WINDOW_ADJUST in every phase
-    fixed = dict(FixLost='TRUE', FixCross='TRUE')
+    fixed = dict(FixLost='TRUE', FixCross='TRUE',
+                 CreditDropped=asis['CreditDropped'])
     jobs.append(Job('fwd rules, window 2', 'Forward',
-                    dict(fixed, Win=2, MaxW=3,
-                         Keeps='{"TT"}' if quick else ALL_KEEPS),
+                    dict(fixed, Win=2, MaxW=3, AllowLsn='FALSE',
+                         AllowFail='FALSE', Keeps='{"TT"}') if quick else
+                    dict(fixed, Win=2, MaxW=3, Keeps=ALL_KEEPS),
                     FWD_INVS_ALL, workers=4))
     jobs.append(Job('fwd sensitivity AdjustOnlyOpen (expected '
                     'NoProtocolError)', 'Forward',
@@ -388,9 +397,14 @@ def main(ctx):
         jobs.append(Job('fwd rules, window 3', 'Forward',
                         dict(fixed, Win=3, MaxW=4, AllowFail='FALSE',
                              AllowLsn='FALSE'), FWD_INVS_ALL, workers=4))
-        jobs.append(Job('fwd witness close_pending deadlock (ChannelsEnd)',
-                        'Forward', dict(fixed, Win=2, MaxW=3),
+        jobs.append(Job('fwd without the close_pending credit (expected '
+                        'ChannelsEnd)', 'Forward',
+                        dict(fixed, Win=2, MaxW=3, CreditDropped='FALSE'),
                         ['ChannelsEnd'], expect='ChannelsEnd'))
+        jobs.append(Job('fwd with the close_pending credit', 'Forward',
+                        dict(fixed, Win=2, MaxW=3, CreditDropped='TRUE',
+                             Keeps='{"TT"}'),
+                        FWD_INVS_ALL + ['ChannelsEnd'], workers=4))
     # the two teardown rules are needed: without them the properties fail
     if not quick:
         jobs.append(Job('fwd without F11 rule (expected CloseBoth)', 'Forward',
@@ -442,7 +456,8 @@ def main(ctx):
         jobs.append(Job('listeners witness port in use', 'Listeners', {},
                         ['NeverFailedOpen'], expect='NeverFailedOpen'))
     # X11 forwarding
-    jobs.append(Job('x11 rules', 'X11', dict(MaxX=2 if quick else 3),
+    jobs.append(Job('x11 rules', 'X11',
+                    dict(N=2, MaxX=3) if quick else dict(MaxX=3),
                     X11_INVS, workers=4))
     jobs.append(Job('x11 sensitivity KeepClosedCookies', 'X11',
                     dict(KeepClosedCookies='TRUE', MaxX=2),
@@ -470,7 +485,7 @@ def main(ctx):
         jobs.append(Job('perm witness NeverServed', 'ForwardPerm', {},
                         ['NeverServed'], expect='NeverServed', workers=1))
     # generators: behaviours of the model of the code as it is
-    n = 56 if quick else 500
+    n = 48 if quick else 500
     sims = [
         Job('sim relay', 'Forward',
             dict(asis, MaxW=3, Keeps=ALL_KEEPS, AllowCut='FALSE',
@@ -651,7 +666,7 @@ def main(ctx):
     coarse_src = [(kl, kr, 0, tr) for kl, kr, _, tr in coarse_src]
     coarse_src += [(kl, kr, 0, tr) for kl, kr, _, tr in windowed]
     rnd.shuffle(coarse_src)
-    for idx, (kl, kr, _, tr) in enumerate(coarse_src[:(320 if quick else 3000)]):
+    for idx, (kl, kr, _, tr) in enumerate(coarse_src[:(270 if quick else 3000)]):
         labels = [l for l in labels_of(tr) if l[0] in 'WECX' or l[0] == 'LSN']
         kind = all_kinds[idx % len(all_kinds)]
         sizes, chunk, window = variants[idx % len(variants)]
@@ -695,6 +710,7 @@ def main(ctx):
             window = flow_windows[nflow % len(flow_windows)]
             kw = dict(kind=kind, window=window, half=half,
                       slow=nflow % 4 != 3,
+                      close_while_paused=nflow % 3 == 1,
                       chunk=None if nflow % 2 else 777)
             r = F.flow_case(**kw)
             nflow += 1
@@ -908,7 +924,7 @@ def main(ctx):
         rest = [c for c in cases if c[2]['st'] not in ('connected', 'closed')]
         rnd.shuffle(final)
         rnd.shuffle(rest)
-        chosen = final[:330] + rest[:120]
+        chosen = final[:240] + rest[:90]
     else:
         chosen = cases
     sw = F.SocksWorld()
